@@ -585,7 +585,17 @@ def stream_struct(tier, seed):
     # trailing bytes, of a block made of one large transaction, and of a transaction: implementation + reference
     # decoder only (id prefix "ro")
     budget = (80 if quick else 300) * 1000000
-    for v in sorted(mined_values(limit=8000000), reverse=True):
+    # limits that live in the libraries the crate talks to, not in its own source: rust-bitcoin's decoder refuses
+    # vectors above 4 000 000 bytes, legacy blocks were 1 000 000 bytes
+    library_limits = [4000000, 1000000]
+    for v in library_limits:
+        for slen in (v - 14, v):
+            ob = struct.pack("<Q", 0x0102030405060708 % (1 << 64)) + btc.cs(slen) + bytes([0x6a]) * slen
+            gid = "rotxo%d_%d" % (v, slen)
+            meta[gid] = {"entry": "txout", "tag": "librarylimit", "len": len(ob)}
+            lines.append(P(gid + ".full", "txout", ob + b"\x07"))
+            budget -= len(ob)
+    for v in sorted(set(mined_values(limit=8000000)) | set(library_limits), reverse=True):
         if v <= 70000 or 3 * v > budget:
             continue
         budget -= 3 * v
